@@ -1087,7 +1087,7 @@ def suite_env_tree(ctx):
     via rpc; leaf ok / failing) with env() read at every expression site of every level.  Oracle first (no model), then
     the same observations against Model/EnvTree.v env_seen over the translated Gen/EnvSites.v."""
     rng = ctx.rng
-    cases = env_corpus() + [gen_env_case(rng) for _ in range(ctx.n(22, 300))]
+    cases = env_corpus() + [gen_env_case(rng) for _ in range(ctx.n(22, 200))]
     runs, exprs, keys = [], [], {}
     shapes = {}
     for i, c in enumerate(cases):
